@@ -2692,6 +2692,58 @@ class ErrorGen(ProgramGen):
             return [Local([co], [Call(Fld(Var("coroutine"), "wrap"), Fn([], False, loop + after + [Return(Str("co-done"))]))]), em(Call(Var(co)))] + after
         return loop + after
 
+
+    def close_raise(self):
+        """two errors at once: an error unwinds a scope whose closing method raises a different
+        error; the error of the closing method replaces the one in flight (manual 3.3.8): the
+        next closing method and the nearest protected call / coroutine boundary get the new
+        value (tables by identity); under xpcall the handler runs once for each error"""
+        r = self.rng
+        k = r.below(5)
+        vk = r.below(5)
+        self.feat("close-raises:%s:%s" % (["pcall", "xpcall", "resume", "wrap-pcall", "nested-pcall"][k], ["str", "table", "nil", "int", "str-pos"][vk]))
+        em = lambda *a: self.emit_stat(list(a))
+        CE, ok, e, f = self.fresh("CE"), self.fresh("ok"), self.fresh("er"), self.fresh("f")
+        pre = [Local([CE], [[Str("close-err"), Tab(FNamed("tag", Int(7))), Nil(), Int(41), Str("cpos")][vk]])]
+        raise2 = SCall(Call(Var("error"), Var(CE), *([] if vk == 4 else [Int(0)])))
+        good = lambda tag: Call(Var("setmetatable"), Tab(), Tab(FNamed("__close", Fn(["o", "er"], False, [
+            em(Str("close"), tag, Call(Var("type"), Var("er")), Call(Var("rawequal"), Var("er"), Var(CE)))]))))
+        bad = Call(Var("setmetatable"), Tab(), Tab(FNamed("__close", Fn(["o", "er"], False, [em(Str("bad-close"), Call(Var("type"), Var("er"))), raise2]))))
+        orig = r.choice([[SCall(Call(Var("error"), Str("orig"), Int(0)))], [SCall(Call(Var("error"), Tab(FNamed("orig", TrueE()))))],
+                         [Local(["z"], [Nil()]), Local(["y"], [Bin("add", Var("z"), Int(1))])], [SCall(Call(Var("error"), Int(5)))]])
+        inner_scope = r.chance(1, 2)
+        body = [Local(["a"], [good(Int(1))], ["close"])]
+        if inner_scope:
+            body += [Do([Local(["b"], [bad], ["close"]), Local(["c"], [good(Int(3))], ["close"]), em(Str("body"))] + orig), em(Str("unreachable"))]
+        else:
+            body += [Local(["b"], [bad], ["close"]), em(Str("body"))] + orig
+        fn = Fn([], False, body)
+        h = Fn(["m"], False, [em(Str("handler"), Call(Var("type"), Var("m")), Call(Var("rawequal"), Var("m"), Var(CE))), Return(Var("m"))])
+        if k == 0:
+            call = [Local([ok, e], [Call(Var("pcall"), fn)])]
+        elif k == 1:
+            call = [Local([ok, e], [Call(Var("xpcall"), fn, h)])]
+        elif k == 2:
+            call = [Local([f], [Call(Fld(Var("coroutine"), "create"), fn)]), Local([ok, e], [Call(Fld(Var("coroutine"), "resume"), Var(f))]),
+                    em(Call(Fld(Var("coroutine"), "status"), Var(f)))]
+        elif k == 3 and vk in (1, 2, 3):
+            call = [Local([ok, e], [Call(Var("pcall"), Call(Fld(Var("coroutine"), "wrap"), fn))])]
+        else:
+            call = [Local([ok, e], [Call(Var("pcall"), Fn([], False, [Local(["p", "q"], [Call(Var("pcall"), fn)]),
+                                                                      em(Str("inner"), Var("p"), Call(Var("rawequal"), Var("q"), Var(CE))), SCall(Call(Var("error"), Var("q"), Int(0)))]))])]
+        return pre + call + [em(Var(ok), Call(Var("type"), Var(e)), Call(Var("rawequal"), Var(e), Var(CE)),
+                                And(Bin("ne", Call(Var("type"), Var(e)), Str("table")), Var(e)))]
+
+    def noncallable(self):
+        """protected calls of values that cannot be called: the failure is an error like any
+        other (xpcall's handler gets the message)"""
+        r = self.rng
+        self.feat("protected-call-of-noncallable")
+        em = lambda *a: self.emit_stat(list(a))
+        v = r.choice([Nil(), Int(42), Str("s"), Tab()])
+        h = Fn(["m"], False, [em(Str("handler"), Call(Var("type"), Var("m"))), Return(Var("m"), Int(2))])
+        return [em(Call(Var("pcall"), v)), em(Call(Var("xpcall"), v, h)), em(Call(Var("pcall"), Var("pcall"), v))]
+
     def epilogue(self):
         """fixed statements exercising loops, calls, closures, tables, strings after the catches"""
         em = lambda *a: self.emit_stat(list(a))
@@ -2723,6 +2775,10 @@ class ErrorGen(ProgramGen):
             body += self.scenario()
         if r.chance(1, 6) or self.pf.get("many_errors"):
             body += self.many_errors()
+        if self.pf["stage4"] and not self.pf.get("ref53") and r.chance(1, 3):
+            body += self.close_raise()
+        if r.chance(1, 8):
+            body += self.noncallable()
         body += self.epilogue()
         body.append(self.observe())
         # sometimes the program ends with an error that reaches the embedding caller
